@@ -137,6 +137,9 @@ func runC10(c *eng.Ctx) {
 		}
 	})
 
+	// ---- 2c. an atom that matches no value is an empty set, never a failure of the whole condition ---------------------------------
+	c.Rule("ERRFLOW", "index.metricMetaDatabase{empty match is not an error}", func() { emptyMatchIsNotAnError(c) })
+
 	// ---- 3. boolean structure ---------------------------------------------------------------------------------------------------
 	c.Rule("GUARD", "query/operator.seriesFiltering.findSeriesIDsByExpr{and/or/not}", func() {
 		f := c.Fn("query/operator.seriesFiltering.findSeriesIDsByExpr")
@@ -161,6 +164,45 @@ func runC10(c *eng.Ctx) {
 			"NOT removes the matching series from the series that carry that tag key", "")
 		okd, why := eng.OkDominates(f, all.Instr, an.Instr)
 		c.Check(okd, "universe-read-ok", an.Instr, f, "and only when that universe was read successfully", why)
+		// the universe is that of the operand's tag key: the key travels up from the atomic filter
+		uk := eng.CallArgs(all.Instr.(*ssa.Call))[0]
+		c.Check(eng.DependsOn(uk, func(x ssa.Value) bool {
+			cl, ok := x.(*ssa.Call)
+			return ok && cl.Common().StaticCallee() == f
+		}), "universe-key-from-operand", all.Instr, f, "the universe of NOT is read for the tag key the operand reported", "key "+p.Desc(uk))
+		gs := c.Fn("query/operator.seriesFiltering.getSeriesIDsByExpr")
+		tfc := c.One(f, eng.CallTo("query/operator.seriesFiltering.getSeriesIDsByExpr"), "op.getSeriesIDsByExpr(expr)")
+		for i, r := range eng.SuccessReturns(f) {
+			rv1 := eng.RetVal(r, 1)
+			if eng.DependsOn(rv1, func(x ssa.Value) bool { return x == tfc.Instr.(ssa.Value) }) {
+				c.Check(eng.DependsOn(eng.RetVal(r, 0), func(x ssa.Value) bool { return extractIs(x, tfc.Instr.(ssa.Value), 0) }), fmt.Sprintf("atomic-filter-reports-its-key[%d]", i), r, f,
+					"the atomic-filter case hands its tag key up together with its series", "returns key "+p.Desc(eng.RetVal(r, 0)))
+			}
+		}
+		var tv *ssa.Lookup
+		for _, b := range gs.Blocks {
+			for _, in := range b.Instrs {
+				if l, ok := in.(*ssa.Lookup); ok && eng.DependsOnField(l.X, "flow.StorageExecuteContext.TagFilterResult") {
+					tv = l
+				}
+			}
+		}
+		if tv == nil {
+			c.Undecided("TagFilterResult lookup not found in getSeriesIDsByExpr")
+		}
+		fromTV := func(v ssa.Value, field string) bool {
+			return eng.DependsOnField(v, "flow.TagFilterResult."+field) && eng.DependsOn(v, func(x ssa.Value) bool { return x == ssa.Value(tv) })
+		}
+		ns := 0
+		for i, r := range eng.SuccessReturns(gs) {
+			ns++
+			c.Check(fromTV(eng.RetVal(r, 0), "TagKeyID"), fmt.Sprintf("filter-key-is-the-looked-up-key[%d]", i), r, gs,
+				"every successful answer of an atomic filter carries the tag key id of its lookup result (NOT needs it also when nothing matched)", "returns "+p.Desc(eng.RetVal(r, 0)))
+		}
+		c.Check(ns >= 1, "filter-success-exit", nil, gs, "getSeriesIDsByExpr has a success exit", "")
+		bys := c.One(gs, invokeOn(".indexDB", "GetSeriesIDsByTagValueIDs"), "indexDB.GetSeriesIDsByTagValueIDs(key, values)")
+		ba := eng.CallArgs(bys.Instr.(*ssa.Call))
+		c.Check(fromTV(ba[0], "TagKeyID") && fromTV(ba[1], "TagValueIDs"), "postings-of-the-looked-up-values", bys.Instr, gs, "the posting lists read are those of the looked-up key and value ids", p.Desc(ba[0])+", "+p.Desc(ba[1]))
 		tl := c.Fn("query/operator.tagValuesLookup.findTagValueIDsByExpr")
 		f2 := p.MustFacts(tl)
 		orC := constOf(c, "sql/stmt", "OR")
@@ -391,4 +433,38 @@ func memoryBeforeSnapshot(c *eng.Ctx, readers []orderedReader) {
 		_, before := eng.Reaches(f, mem[0].Instr, snaps, nil)
 		c.Check(before, r.fn+":memory-read-precedes-snapshot", snaps[0].Instr, f, "the memory read is followed by the snapshot acquisition", "")
 	}
+}
+
+// emptyMatchIsNotAnError (C10 + C12): the tag-value lookups return errors only when the dictionary read failed; an atom of an
+// OR / NOT condition that matches nothing on this node must contribute the empty set (otherwise the node answers "not found"
+// for series that satisfy the rest of the condition, and the root tolerates that answer).
+func emptyMatchIsNotAnError(c *eng.Ctx) {
+	p := c.P
+	errorsOnlyFrom(c, "index.metricMetaDatabase.FindTagValueDsByExpr", invokeOn(".tagValue", "FindValuesByExpr"), "tagValue.FindValuesByExpr")
+	errorsOnlyFrom(c, "index.metricMetaDatabase.FindTagValueIDsForTag", invokeOn(".tagValue", "GetValues"), "tagValue.GetValues")
+	// the walker stores a result for every atom whose lookup did not fail
+	tl := c.Fn("query/operator.tagValuesLookup.findTagValueIDsByExpr")
+	look := c.One(tl, invokeOn(".metaDB", "FindTagValueDsByExpr"), "metaDB.FindTagValueDsByExpr")
+	var put *ssa.MapUpdate
+	for _, b := range tl.Blocks {
+		for _, in := range b.Instrs {
+			if mu, ok := in.(*ssa.MapUpdate); ok && eng.DependsOnField(mu.Map, "flow.StorageExecuteContext.TagFilterResult") {
+				put = mu
+			}
+		}
+	}
+	if put == nil {
+		c.Undecided("TagFilterResult[...] = ... not found in tagValuesLookup")
+	}
+	nilE, _ := eng.ErrCheckEdges(tl, look.Instr.(ssa.Value))
+	okAll := len(nilE) > 0
+	for _, e := range nilE {
+		first := e.B.Succs[e.Succ].Instrs[0]
+		_, skip := eng.PathExists(eng.PathQuery{Fn: tl, After: first, Target: func(in ssa.Instruction) bool { _, ok := in.(*ssa.Return); return ok }, Blocked: func(in ssa.Instruction) bool { return in == ssa.Instruction(put) }})
+		if skip && first != ssa.Instruction(put) {
+			okAll = false
+		}
+	}
+	c.Check(okAll, "every-successful-atom-recorded", put, tl, "every atom whose lookup succeeded (also with no match) gets its entry in TagFilterResult", "a return is reachable after a successful lookup without recording the atom")
+	_ = p
 }
